@@ -295,8 +295,14 @@ theorem preimageBody_spec_partial (m : Mgr) (hI : Inv m) (hoff : m.lastLen = non
       (fun p hp j hj heq => hind p hp j heq (hj.dependsOn hI.wf)))
     (IMemo.empty _ _ _ _ _) (by omega)
   refine ⟨r, m', ?_, h1, h2, h5, h3, h6⟩
+  have hnbr : renameNeighbors (resolveRename m.tbl rn) = true := by
+    unfold renameNeighbors
+    rw [hpairs, List.all_eq_true]
+    intro p hp
+    simp only [beq_iff_eq]
+    exact hadj p hp
   unfold preimageBody
-  simp only [hq, assertValidRename_ok m hV _ hne hov, hpairs, hnb, he]
+  simp only [hq, assertValidRename_ok m hV _ hne hov, hnbr, if_true, hpairs, hnb, he]
 
 /-! ### the renaming dictionary: keys and values given as names or as levels -/
 
